@@ -1,4 +1,6 @@
 #!/bin/bash
+# evidence of runs against modified code never overwrites the committed evidence of the unchanged tree
+export VERIF_EVIDENCE_DIR=$(mktemp -d /tmp/verif-ev.XXXXXX)
 # tools/sedmut.sh <repo-relative-file> <sed-expr> <driver...>   (ad-hoc mutant on a scratch copy; dev helper)
 set -u
 f=$1; expr=$2; shift 2
